@@ -11,6 +11,8 @@ invariant of live runs.
 * **`live_run_applied`**: along a `LiveRunM`, every record of the old log and every record the run
   writes is `AppliedC` for the catalog description the run ends in (root moves included), and every LSN
   in the log is below the LSN counter.
+* **`live_run_keys`**: along a `LiveRunM`, no INSERT record of the log carries a key beyond the row-id
+  counter.
 -/
 set_option autoImplicit false
 namespace Mkdb.Store
@@ -268,5 +270,90 @@ theorem live_run_applied (sch : Levels) {s0 sN : Store} {tbls tblsN : List (Byte
     rcases a3 with a3 | ⟨r, hr, a3⟩
     · exact ⟨_, List.mem_append_left _ (List.mem_singleton.mpr rfl), by rw [a3, hlsn']⟩
     · exact ⟨r, List.mem_append_right _ hr, a3⟩
+
+/-- **No logged INSERT key is beyond the row-id counter.**  A live run of row statements starts from a
+store whose row-id counter no INSERT record of the old log `old` is ahead of.  The same holds at the
+end for the old log followed by the records the run wrote: every INSERT writes the key the counter
+hands out, and the counter never goes down.  (Recovery raises the counter to the key of every INSERT
+record, also of one it skips; so this is what makes the replay of an applied log leave it alone.) -/
+theorem live_run_keys (sch : Levels) {s0 sN : Store} {tbls tblsN : List (Bytes × Levels)}
+    {stmts : List RStmt} {logs : List WalRec} (run : LiveRunM sch s0 tbls stmts sN tblsN logs) :
+    ∀ (pt : Levels) (old : List WalRec), Cat s0 pt sch tbls →
+      (∀ r ∈ old, r.op = c_OpInsert → r.cell ≤ s0.hdr.lastKey) →
+      (∀ r ∈ old ++ logs, r.op = c_OpInsert → r.cell ≤ sN.hdr.lastKey) ∧
+        s0.hdr.lastKey ≤ sN.hdr.lastKey := by
+  induction run with
+  | nil s tbls =>
+    intro pt old h hk
+    exact ⟨by simpa using hk, Nat.le_refl _⟩
+  | @same s s1 s2 tbls tbls2 stmts logs hs _ ih =>
+    intro pt old h hk
+    obtain ⟨a1, a2⟩ := ih pt old (h.of_same hs) (by rw [hs.2]; exact hk)
+    exact ⟨a1, by rw [← hs.2]; exact a2⟩
+  | @ins s s1 s2 tbls tbls2 rest logs logs2 table cols vals t schema buf t' nf' ht hsch hcols henc hlen hins
+      hd' hl' hbig hrun _ ih =>
+    intro pt old h hk
+    obtain ⟨s', ptF, logs', erun, hc', hlk', _, hcase⟩ := insert_refines' s pt sch tbls h table t ht cols vals
+      schema buf hsch hcols henc hlen t' nf' hins hd' hl' hbig
+    rw [hrun] at erun
+    simp only [SRes.ok.injEq] at erun
+    obtain ⟨rfl, rfl⟩ := erun
+    have hstep : ∀ r ∈ old ++ logs, r.op = c_OpInsert → r.cell ≤ s1.hdr.lastKey := by
+      intro r hr hop
+      rw [hlk']
+      rcases List.mem_append.mp hr with hr | hr
+      · have := hk r hr hop; omega
+      · rcases hcase with ⟨_, _, _, rfl⟩ | ⟨_, _, a, p, _, _, _, _, _, rfl⟩
+        · simp only [List.mem_singleton] at hr
+          subst hr
+          exact Nat.le_refl _
+        · simp only [List.mem_cons, List.not_mem_nil, or_false] at hr
+          rcases hr with rfl | rfl
+          · exact Nat.le_refl _
+          · exact absurd hop (show ¬ c_OpUpdate = c_OpInsert by decide)
+    obtain ⟨a1, a2⟩ := ih ptF (old ++ logs) hc' hstep
+    exact ⟨by rw [← List.append_assoc]; exact a1, by omega⟩
+  | @upd s s1 s2 tbls tbls2 rest logs logs2 table rowId cols src t schema c m buf ht hsch hc hk' hdec henc hlen
+      hrun _ ih =>
+    intro pt old h hk
+    obtain ⟨s', l, d, _, _, erun, hc', _, hlk', _⟩ := update_cat h table t ht schema hsch rowId cols src c hc hk'
+      m buf hdec henc hlen
+    rw [hrun] at erun
+    simp only [SRes.ok.injEq] at erun
+    obtain ⟨rfl, rfl⟩ := erun
+    obtain ⟨a1, a2⟩ := ih pt (old ++ [⟨c_OpUpdate, s.hdr.nextLSN, l.off, rowId, buf⟩]) hc'
+      (by
+        intro r hr hop
+        rw [hlk']
+        rcases List.mem_append.mp hr with hr | hr
+        · exact hk r hr hop
+        · simp only [List.mem_singleton] at hr
+          subst hr
+          exact absurd hop (show ¬ c_OpUpdate = c_OpInsert by decide))
+    exact ⟨by rw [← List.append_assoc]; exact a1, by omega⟩
+  | @updAbsent s s1 s2 tbls tbls2 rest logs logs2 table rowId cols src t schema ht hsch habs hrun _ ih =>
+    intro pt old h hk
+    obtain ⟨s', erun, hs, hc'⟩ := update_cat_absent h table t ht schema hsch rowId cols src habs
+    rw [hrun] at erun
+    simp only [SRes.ok.injEq] at erun
+    obtain ⟨rfl, rfl⟩ := erun
+    obtain ⟨a1, a2⟩ := ih pt old hc' (by rw [hs.2]; exact hk)
+    exact ⟨by simpa using a1, by rw [← hs.2]; exact a2⟩
+  | @del s s1 s2 tbls tbls2 rest logs logs2 table rowId t c ht hc hk' hrun _ ih =>
+    intro pt old h hk
+    obtain ⟨s', l, d, _, _, erun, hc', _, hlk', _⟩ := markDeleted_cat h table t ht rowId c hc hk'
+    rw [hrun] at erun
+    simp only [SRes.ok.injEq] at erun
+    obtain ⟨rfl, rfl⟩ := erun
+    obtain ⟨a1, a2⟩ := ih pt (old ++ [⟨c_OpDelete, s.hdr.nextLSN, l.off, rowId, []⟩]) hc'
+      (by
+        intro r hr hop
+        rw [hlk']
+        rcases List.mem_append.mp hr with hr | hr
+        · exact hk r hr hop
+        · simp only [List.mem_singleton] at hr
+          subst hr
+          exact absurd hop (show ¬ c_OpDelete = c_OpInsert by decide))
+    exact ⟨by rw [← List.append_assoc]; exact a1, by omega⟩
 
 end Mkdb.Store
